@@ -156,3 +156,17 @@ void h_rotate22 (void)
     VF_ASSERT (n.x[0][0] == e.x[0][0] && n.x[0][1] == e.x[0][1] && n.x[1][0] == e.x[1][0] && n.x[1][1] == e.x[1][1], "2x2 rotate(r) equals the current matrix times setRotation(r)");
     VF_END ();
 }
+
+void h_scale22 (void)
+{
+    VF_IN_ARR (U, in_n, 4); IN_V2 (sv, in_s); VF_IN (U, in_k);
+    M22 n; n.x[0][0] = in_n[0]; n.x[0][1] = in_n[1]; n.x[1][0] = in_n[2]; n.x[1][1] = in_n[3];
+    M22 a = n; F_setScale22s (&a, in_k);
+    VF_ASSERT (a.x[0][0] == in_k && a.x[0][1] == 0 && a.x[1][0] == 0 && a.x[1][1] == in_k, "2x2 setScale(s) == diag(s, s)");
+    M22 b = n; F_setScale22v (&b, &sv);
+    VF_ASSERT (b.x[0][0] == sv.x && b.x[0][1] == 0 && b.x[1][0] == 0 && b.x[1][1] == sv.y, "2x2 setScale(Vec2) == diag(s.x, s.y)");
+    M22 c = n; F_scale22 (&c, &sv);
+    M22 e = F_mul22 (&b, &n);
+    VF_ASSERT (c.x[0][0] == e.x[0][0] && c.x[0][1] == e.x[0][1] && c.x[1][0] == e.x[1][0] && c.x[1][1] == e.x[1][1], "2x2 scale(s) equals setScale(s) times the current matrix (left multiplication)");
+    VF_END ();
+}
